@@ -49,8 +49,8 @@ def gen_measure_case(rng, kind, max_len):
     if kind == "many_classes":
         # many classes; run_impl hands such vectors over as narrow unsigned integer arrays (uint8), as label files
         # read from compact datasets are
-        K = rng.randint(17, 24)
-        n = rng.randint(K, K + 40)
+        K = rng.randint(17, 24) if rng.random() < 0.75 else rng.choice([64, 100, 127, 128, 130, 200, 255, 256])
+        n = rng.randint(K, K + 40) if K < 60 else rng.randint(2 * K, 2 * K + 20)
         labels = _with_all_classes(rng, K, n)
         r = rng.random()
         preds = list(labels) if r < 0.3 else [l if rng.random() < 0.7 else rng.randrange(K) for l in labels]
@@ -133,10 +133,22 @@ def _call(fn, *a):
     return ("ok", float(r))
 
 
+def label_dtype(labels, preds):
+    """label vectors with many classes arrive as the narrow integer arrays compact label files are read into: any integer
+    type that can hold the values (the measures are functions of the label VALUES)"""
+    import numpy as np
+    dt = int
+    if len(labels) and max(labels) >= 16 and min(list(labels) + list(preds)) >= 0:
+        M = max(list(labels) + list(preds))
+        cands = [t for t, top in ((np.uint8, 255), (np.int8, 127), (np.int16, 32767), (np.uint16, 65535), (np.int32, 2 ** 31 - 1)) if M <= top]
+        dt = cands[(len(labels) + M) % len(cands)]
+    return dt
+
+
 def run_impl(labels, preds):
     import numpy as np
     import opfython.math.general as g
-    dt = np.uint8 if (len(labels) and 16 <= max(labels) < 100 and min(list(labels) + list(preds)) >= 0) else int
+    dt = label_dtype(labels, preds)
     l = np.asarray(labels, dtype=dt)
     p = np.asarray(preds, dtype=dt)
     return dict(cm=_call(g.confusion_matrix, l, p), acc=_call(g.opf_accuracy, l, p),
@@ -221,9 +233,11 @@ def definitions(labels, preds):
                 all_correct=all(l == p for l, p in pairs))
 
 
-def oracle(labels, preds, impl):
-    """Returns [(function, message)] - the ways in which the implementation's answers break C20 (in-domain input)."""
-    d = definitions(labels, preds)
+def oracle(labels, preds, impl, d=None):
+    """Returns [(function, message)] - the ways in which the implementation's answers break C20 (in-domain input).
+    `d`: the dictionary of definitions() when the caller computed it already (large_b.fast_definitions for long vectors)."""
+    if d is None:
+        d = definitions(labels, preds)
     out = []
     # confusion matrix
     if impl["cm"][0] != "ok":
@@ -410,7 +424,10 @@ def main(tier, seed):
                 "pure groups (purity 1), merged groups; plus an out-of-domain stream (missing class; prediction >= K) that is "
                 "only compared with the model, never judged; a case is non-trivial when K >= 2 and it has both a correct and a "
                 "wrong prediction; distinct = distinct (labels, preds). normalize: matrices 2..30 x 1..6 with uniform, integer, "
-                "two-valued, shifted (mean >> spread) and constant columns")
+                "two-valued, shifted (mean >> spread) and constant columns; large-size stream (oracle only): vector pairs of 1025-1300, "
+                "4097-5000 and 70000 entries x 2-6, 65-100 and 257-300 classes (shuffled, class-sorted, rare last class; errors in the "
+                "tail), arrays of 1025, 1500, 2048, 2500, 5000 rows x 3-6 columns and > 1024 rows x 65-90 columns (sorted, tail "
+                "outliers, constant but one entry, two regimes, drift)")
     standard_proof_phase(rep, "C20", NEEDED)
     drop_axioms_header(rep)
     rng = random.Random(seed)
@@ -480,7 +497,7 @@ def main(tier, seed):
             l2, p2 = shrink(l, p, fn)
             msgs = [m for f, m in oracle(l2, p2, run_impl(l2, p2)) if f == fn]
             rep.violation("general.%s breaks C20 on labels=%r preds=%r: %s" % (fn, l2, p2, msgs[0] if msgs else msg),
-                          dict(kind="measures", function=fn, labels=l2, preds=p2), key="general." + fn)
+                          dict(kind="measures", function=fn, labels=l2, preds=p2, array_dtype=__import__("numpy").dtype(label_dtype(l2, p2)).name), key="general." + fn)
     import drive_streams
     nviol += drive_streams.reused_label_buffers(rep, rng, tier)
     rep.extra["oracle_violations"] = nviol
@@ -539,6 +556,11 @@ def main(tier, seed):
                 rep.violation("general.normalize breaks C20: " + msg, dict(kind="normalize", rows=rows), key="general.normalize")
     rep.extra["normalize_oracle_violations"] = nv
 
+    # ---- large-size stream: vectors of > 1024 / > 4096 / 70000 entries, > 64 / > 256 classes; arrays of 1025 .. 5000 rows and
+    # > 64 columns (harness/large_b.py)
+    import large_b
+    rep.extra["large_oracle_violations"] = large_b.c20_large(rep, seed, tier)
+
     rep.samples = [dict(kind=k, labels=l[:20], preds=p[:20]) for (k, l, p) in cases[exh:exh + 4]] + \
                   [dict(kind="normalize", rows=mats[0][0][:4])]
     rep.assumptions = [
@@ -556,6 +578,14 @@ def replay(path):
     path = os.path.abspath(path)
     setup_impl_env()
     r = json.load(open(path))["replay"]
+    if str(r.get("kind", "")).startswith("large-"):
+        import large_b
+        msgs = large_b.c20_replay(r)
+        for m in msgs:
+            print("replay:", m)
+        if not msgs:
+            print("replay: property holds on this input")
+        return 1 if msgs else 0
     if r.get("kind") == "normalize":
         msg = normalize_oracle(r["rows"], run_normalize_impl(r["rows"]))
         print("replay:", msg or "property holds on this matrix")
